@@ -33,11 +33,15 @@ var (
 	ecsNetX4 = netip.MustParsePrefix("10.1.0.0/16")
 	ecsNetY4 = netip.MustParsePrefix("10.2.0.0/16")
 	ecsNetX6 = netip.MustParsePrefix("2001:db8:1::/48")
+	ecsNetZ4 = netip.MustParsePrefix("10.3.0.0/16")
 
 	// Coarse subnets the GeoIP database assigns to the countries.
 	ecsGeoX4 = netip.MustParsePrefix("203.0.113.0/24")
 	ecsGeoY4 = netip.MustParsePrefix("198.51.100.0/24")
 	ecsGeoX6 = netip.MustParsePrefix("2001:db8:aaaa::/48")
+	// Region Z's subnet has the network address of region X's and another
+	// prefix length (as a country's subnet and the subnet of its top ASN can).
+	ecsGeoZ4 = netip.MustParsePrefix("203.0.113.0/25")
 )
 
 func ecsLocate(ip netip.Addr) *geoip.Location {
@@ -46,6 +50,8 @@ func ecsLocate(ip netip.Addr) *geoip.Location {
 		return &geoip.Location{Country: geoip.Country("XA"), ASN: 1}
 	case ecsNetY4.Contains(ip):
 		return &geoip.Location{Country: geoip.Country("YB"), ASN: 2}
+	case ecsNetZ4.Contains(ip):
+		return &geoip.Location{Country: geoip.Country("ZC"), ASN: 3}
 	default:
 		return nil
 	}
@@ -60,6 +66,8 @@ func ecsGeoSubnet(l *geoip.Location, fam netutil.AddrFamily) netip.Prefix {
 			return ecsGeoY4
 		case l.Country == "XA" && fam == netutil.AddrFamilyIPv6:
 			return ecsGeoX6
+		case l.Country == "ZC" && fam == netutil.AddrFamilyIPv4:
+			return ecsGeoZ4
 		}
 	}
 
@@ -161,7 +169,8 @@ func ecsAnswer(kind string, req *dns.Msg) (resp *dns.Msg) {
 		for _, b := range sn.Address {
 			sub = (sub*31 + int(b)) % 200
 		}
-		sub += 1
+		// ... and its length.
+		sub = (sub*31+int(sn.SourceNetmask))%200 + 1
 	}
 	rec := func(ttl int, last int) dns.RR {
 		if q.Qtype == dns.TypeAAAA {
